@@ -871,6 +871,62 @@ Proof.
 Qed.
 
 
+(* ------------------------------------------------------------ dead entries of the LLGR timer map *)
+
+Lemma t_c_run : forall evs t, t_c (t_run t evs) = c_run (t_c t) evs.
+Proof.
+  induction evs as [|e r IH]; intros t; [reflexivity|].
+  unfold t_run, c_run. cbn [fold_left]. fold (t_run (t_step t e) r). fold (c_run (c_step (t_c t) e) r).
+  rewrite IH. reflexivity.
+Qed.
+
+Definition dead_sound (t : tstate) : Prop :=
+  forall f, mem f (t_dead t) = true -> mem f (h_ltimers (c_h (t_c t))) = false.
+
+Lemma dead_sound_step : forall t e, dead_sound (t_step t e).
+Proof.
+  intros t e f Hf. unfold t_step in *. cbn [t_dead t_c] in *. unfold dead_next in Hf.
+  rewrite mem_dedup, mem_filter in Hf. apply andb_true_iff in Hf. destruct Hf as [_ Hn].
+  apply negb_true_iff in Hn. exact Hn.
+Qed.
+
+Lemma dead_sound_run : forall evs t, dead_sound t -> dead_sound (t_run t evs).
+Proof.
+  induction evs as [|e r IH]; intros t Ht; [exact Ht|].
+  unfold t_run. cbn [fold_left]. apply IH. apply dead_sound_step.
+Qed.
+
+(* The map llgr_family_timers of the code keeps the entry of an LLGR timer that ran out
+   (Model/Gr.v t_dead).  Over every history, through any number of GR / LLGR cycles of the
+   peer: the state is the one of the histories above (dead entries influence nothing, because
+   storing a new timer overwrites the entry of its family), so stale routes exist only while
+   a restart timer or an ARMED LLGR timer is pending or an End-of-RIB is awaited; and a family
+   never has a dead entry and an armed timer at once. *)
+Theorem C10_stale_implies_timer_or_eor_dead_timer_entries :
+  forall (evs : list cevent),
+    let t := t_run t0 evs in
+    t_c t = c_run c0 evs
+    /\ stale_ok (c_h (t_c t)) = true
+    /\ (forall f, mem f (t_dead t) = true -> mem f (h_ltimers (c_h (t_c t))) = false).
+Proof.
+  intros evs t. subst t. split; [apply t_c_run|]. split.
+  - rewrite t_c_run. apply inv_stale_ok. apply inv_c_run. exact inv_h0.
+  - apply dead_sound_run. intros f Hf. discriminate.
+Qed.
+
+(* two full LLGR periods of one family: the entry of the first period's timer is dead when the
+   second period starts, the second period's timer is armed over it and its expiry purges *)
+Example ex_second_llgr_period :
+  let up := CBase (HUp [V4] (Some ([V4], 120, false)) (Some [(V4, 3600)])) in
+  let cyc := [up; CBase (HAnnounce V4 0 false false); CBase (HDown RsTcp); CBase HRestartTimer] in
+  let t1 := t_run t0 (cyc ++ [CBase (HLlgrTimer V4)]) in
+  let t2 := t_run t1 cyc in
+  let t3 := t_step t2 (CBase (HLlgrTimer V4)) in
+  t_dead t1 = [V4] /\ h_ltimers (c_h (t_c t1)) = [] /\ h_rib (c_h (t_c t1)) = []
+  /\ t_dead t2 = [] /\ h_ltimers (c_h (t_c t2)) = [V4] /\ length (h_rib (c_h (t_c t2))) = 1%nat
+  /\ t_dead t3 = [V4] /\ h_rib (c_h (t_c t3)) = [].
+Proof. vm_compute. repeat split; reflexivity. Qed.
+
 (* the phase / timer / route consistency behind it, as a usable corollary: in every
    reachable state a session that is up has no timer armed and its own routes are
    unmarked and in its families; the restart timer is armed exactly in phase
